@@ -29,7 +29,7 @@ func fnKey(f *ssa.Function) string {
 }
 
 func C19(c *core.Ctx) {
-	c.Explanation("C19: every Write-like call (io.Writer.Write, *os.File.Write/WriteString, fmt.Fprint*, io.WriteString) in the repository whose destination is not os.Stderr is an obligation: its error result must be bound and must flow (through phis, local variables, wrapping) to a return statement or to a send on an error channel; an error sent on a channel must be received, by the function that created the channel, in a select/receive whose value is returned (transitively through forwarding functions); every call to a function on the write path that returns an error must itself have that error returned or sent, up to the cobra RunE closures; cmd.Execute must exit non-zero on a non-nil error.")
+	c.Explanation("C19: every Write-like call (io.Writer.Write, *os.File.Write/WriteString, fmt.Fprint*, fmt.Print*, io.WriteString) in the repository whose destination is not os.Stderr and whose payload is not an error value being reported is an obligation: its error result must be bound and must flow (through phis, local variables, wrapping) to a return statement or to a send on an error channel; an error sent on a channel must be received, by the function that created the channel, in a select/receive whose value is returned (transitively through forwarding functions); every call to a function on the write path that returns an error must itself have that error returned or sent, up to the cobra RunE closures; cmd.Execute must exit non-zero on a non-nil error.")
 	checkNoDeferInLoops(c, "B5")
 	p := facts(c)
 	sinks := p.writeSinks()
@@ -37,9 +37,6 @@ func C19(c *core.Ctx) {
 	writers := map[*ssa.Function]bool{}
 	for _, s := range sinks {
 		tf := topFunc(s.fn)
-		if fnKey(tf) == "cmd."+currentName(c, "cmd", "Execute") {
-			continue // printing the failure itself; Execute exits non-zero whatever happens to that message (B2/cmd.Execute)
-		}
 		perFn[tf]++
 		writers[tf] = true
 		key := fmt.Sprintf("B1/%s/write#%d", fnKey(tf), perFn[tf])
